@@ -111,3 +111,68 @@
         kani::cover!(!ok, "out of fuel");
         kani::cover!(fuel == u64::MAX, "max budget");
     }
+
+    // ---- the VM half (one tracker per render, charged once per instruction, shared by nested evaluations) is G-VM:
+    // no contract reaches eval_impl. BOUNDED stand-in, executed natively on the real engine: for a set of programs
+    // with macros / includes / imports / inheritance / loops, every budget in 0..=cost+3 and the extremes.
+//# ob name=fuel_vm_native role=native_bounded fn=vm::eval_impl+State::fuel_levels kind=bounded bound="7 programs (straight line, loop, macro, include, include in loop, import, extends+super) x budgets 0..=cost+3, 2^63-1, 2^63, u64::MAX-1, u64::MAX; 3 repetitions" stmt="each render has a fixed threshold cost+1: it succeeds with the unlimited-fuel output for every budget above cost and fails with OutOfFuel (possibly wrapped by the include error) for every budget at or below; consumed + remaining == budget; consumption is the same on every repetition and accumulates across nested templates"
+    fn fuel_vm_native() {
+        use crate::{Environment, ErrorKind};
+        fn is_out_of_fuel(e: &crate::Error) -> bool {
+            let mut cur: Option<&(dyn std::error::Error + 'static)> = Some(e);
+            while let Some(x) = cur {
+                if let Some(me) = x.downcast_ref::<crate::Error>() { if me.kind() == ErrorKind::OutOfFuel { return true; } }
+                cur = x.source();
+            }
+            false
+        }
+        let programs: &[(&str, &str)] = &[
+            ("straight", "{{ a }}-{{ b }}-{{ a + b }}"),
+            ("loop", "{% for i in range(5) %}{{ i }}{% endfor %}tail {{ a }}"),
+            ("macro", "{% macro m(x) %}[{{ x }}]{% endmacro %}{{ m(1) }}{{ m(2) }}"),
+            ("include", "a{% include 'inc' %}b{% include 'inc' %}"),
+            ("incloop", "{% for i in range(4) %}{% include 'inc' %}{% endfor %}"),
+            ("import", "{% import 'lib' as lib %}{{ lib.f(3) }}{% from 'lib' import f %}{{ f(4) }}"),
+            ("child", "{% extends 'base' %}{% block body %}<{{ super() }}>{{ a }}{% endblock %}"),
+        ];
+        let mk = |fuel: Option<u64>| {
+            let mut env = Environment::new();
+            env.add_template("inc", "{% for j in range(3) %}{{ j }}{% endfor %}").unwrap();
+            env.add_template("lib", "{% macro f(x) %}f{{ x * 2 }}{% endmacro %}").unwrap();
+            env.add_template("base", "B{% block body %}base{{ b }}{% endblock %}E").unwrap();
+            for (n, s) in programs { env.add_template(n, s).unwrap(); }
+            env.set_fuel(fuel);
+            env
+        };
+        let ctx = crate::context! { a => 1, b => 2 };
+        for (name, _) in programs {
+            let reference = mk(None).get_template(name).unwrap().render(&ctx).unwrap();
+            let env = mk(Some(1_000_000));
+            let cap = env.get_template(name).unwrap().render_captured(&ctx).unwrap();
+            assert!(cap.output() == reference, "{name}: output under fuel differs");
+            let (consumed, remaining) = cap.state().fuel_levels().unwrap();
+            assert!(consumed + remaining == 1_000_000, "{name}: levels do not add up");
+            let cost = consumed;
+            assert!(cost > 0);
+            let mut budgets: Vec<u64> = (0..=cost + 3).collect();
+            budgets.extend([i64::MAX as u64, 1u64 << 63, u64::MAX - 1, u64::MAX]);
+            for &b in &budgets {
+                for _rep in 0..3 {
+                    let env = mk(Some(b));
+                    match env.get_template(name).unwrap().render_captured(&ctx) {
+                        Ok(cap) => {
+                            assert!(b > cost, "{name}: succeeded with budget {b} <= cost {cost}");
+                            assert!(cap.output() == reference, "{name}: different output at budget {b}");
+                            let (c, r) = cap.state().fuel_levels().unwrap();
+                            assert!(c == cost, "{name}: consumed {c} != {cost} at budget {b}");
+                            assert!(c as u128 + r as u128 == b as u128, "{name}: {c} + {r} != {b}");
+                        }
+                        Err(e) => {
+                            assert!(b <= cost, "{name}: failed with budget {b} > cost {cost}: {e}");
+                            assert!(is_out_of_fuel(&e), "{name}: wrong error at budget {b}: {e:?}");
+                        }
+                    };
+                }
+            }
+        }
+    }
